@@ -340,6 +340,134 @@ def cutLinesWhole2 (align : Bytes → Nat) (opt : Opt) (stdin : List Bytes) : Ru
       let bufferAsStr := stripEol opt.eol.byte bufferAsStr              -- 136-138
       (cutStrLit2 align bufferAsStr opt boundsAsRanges compressedLineBuf [opt.eol.byte]).1   -- 141-148
 
+/-! ## 4a. `cut_lines_forward_only` (cut_lines.rs:10-127): `matches` with machine integers, the
+UTF-8 validation of `read_line` / `String::from_utf8` transcribed -/
+
+/-- `result.unwrap_or(false)` on a `Result<bool>` (a panic inside the callee stays a panic) -/
+def unwrapOrFalse (r : Res Bool) : Res Bool :=
+  match r with
+  | .ok m => .ok m
+  | .fail => .ok false
+  | .panic => .panic
+
+/-- `b.matches(line_idx)` (cut_lines.rs:55) with the Rust integer types: the bound stored in `i32`s
+    (`BoundsLit.boundsOfModel`), `line_idx: i32` (`I32.wrap`: the model keeps it in an `Int`), then
+    `UserBounds::matches` of `Tuc.Model.BoundsLit` (the two signum products are checked `i32`
+    multiplications) -/
+def matchesLit (b : UserBounds) (idx : Int) : Res Bool :=
+  (BoundsLit.boundsOfModel b).matches (BoundsLit.I32.wrap idx)
+
+/-- the body of the loop (l.36-80): the text of `LinesLoop.innerBody` -/
+def innerBody2 (opt : Opt) (line : Bytes) (v : LinesLoop.Vars) : Run × LinesLoop.Vars × Bool :=
+  match opt.bounds.list[v.boundsIdx]? with                              -- 36 opt.bounds.get(bounds_idx)
+  | Option.none => (Run.panic, v, false)                                -- 36 .unwrap()
+  | Option.some (.filler f) =>                                          -- 39
+    let r1 := Run.ok f                                                  -- 40 stdout.write_all(f)?
+    let v := { v with boundsIdx := v.boundsIdx + 1 }                    -- 41
+    let r2 := LinesLoop.joinWrite opt v.boundsIdx                       -- 43-45
+    (r1.seq r2, v, true)                                                -- 47 continue
+  | Option.some (.bound b) =>                                           -- 49
+    let isMatch : Res Bool :=
+      if v.pastLastIndex then                                           -- 52
+        .ok (decide (b.r = Side.cont))                                  -- 53 b.r == Side::Continue
+      else
+        unwrapOrFalse (matchesLit b v.lineIdx)                          -- 55 b.matches(line_idx).unwrap_or(false)
+    match isMatch with
+    | .panic => (Run.panic, v, false)                                   --    (overflow inside `matches`)
+    | .fail => (Run.fail, v, false)                                     --    (not reached: `unwrap_or`)
+    | .ok isMatch =>
+    if isMatch then                                                     -- 58
+      let r1 := if v.addNewlineNext then Run.ok [opt.eol.byte] else Run.empty   -- 59-61
+      let r2 := Run.ok line                                             -- 63 stdout.write_all(line.as_bytes())?
+      let v := { v with addNewlineNext := true }                        -- 64
+      if !v.pastLastIndex && decide (b.r = Side.some v.lineIdx) then    -- 66
+        let v := { v with boundsIdx := v.boundsIdx + 1 }                -- 68
+        let v := { v with addNewlineNext := false }                     -- 69
+        let r3 := LinesLoop.joinWrite opt v.boundsIdx                   -- 72-74
+        ((r1.seq r2).seq r3, v, true)                                   -- 76 continue
+      else
+        (r1.seq r2, v, false)                                           -- 80 break
+    else
+      (Run.empty, v, false)                                             -- 80 break
+
+/-- the loop (l.35-81): the text of `LinesLoop.innerWhile` -/
+def innerWhile2 (opt : Opt) (line : Bytes) : Nat → LinesLoop.Vars → Run × LinesLoop.Vars
+  | 0, v => (Run.hang, v)
+  | fuel + 1, v =>
+    if v.boundsIdx < opt.bounds.list.length then                        -- 35
+      let b := innerBody2 opt line v
+      if b.2.2 then                                                     -- continue
+        let l := innerWhile2 opt line fuel b.2.1
+        (b.1.seq l.1, l.2)
+      else (b.1, b.2.1)                                                 -- break
+    else (Run.empty, v)
+
+/-- `read_line_with_eol(reader, buffer, eol)` (read_utils.rs:16-45): the text of
+    `WholeLit.readLineWithEolSeg`; the UTF-8 check of `read_line` (l.25) and of `String::from_utf8`
+    (l.31) is core's `run_utf8_validation` as transcribed in `Tuc.Model.LibLit` -/
+def readLineWithEolSeg2 (align : Bytes → Nat) (reader : List Bytes) (eol : EOL) :
+    Outcome (LinesLoop.LineRead × List Bytes) :=
+  let buffer : Bytes := []                                              -- 21 buffer.clear()
+  let m : Outcome (Option Nat × Bytes × List Bytes) :=                  -- (result, buffer, reader)
+    match eol with                                                      -- 23
+    | .newline =>
+      match readUntilLoop 10 (totalBytes reader + 1) reader [] 0 with   -- 25 reader.read_line(buffer)
+      | .hang => .hang
+      | .panic => .panic
+      | .ok (n, bytes, reader) =>
+        if LibLit.fromUtf8IsOk bytes (align bytes) then .ok (Option.some n, buffer ++ bytes, reader)
+        else .ok (Option.none, buffer, reader)
+    | .zero =>
+      let bytes := buffer                                               -- 29 take(buffer).into_bytes()
+      match readUntilLoop eol.byte (totalBytes reader + 1) reader bytes 0 with   -- 30 read_until(eol as u8, &mut bytes)
+      | .hang => .hang
+      | .panic => .panic
+      | .ok (res, bytes, reader) =>
+        if LibLit.fromUtf8IsOk bytes (align bytes) then                 -- 31 String::from_utf8(bytes)
+          .ok (Option.some res, bytes, reader)                          -- 32-35 *buffer = s; res
+        else
+          .ok (Option.none, [], reader)                                 -- 36-39 Err(InvalidData)
+  -- 43-44 .map(|u| if u == 0 { None } else { Some(buffer) }).transpose()
+  match m with
+  | .hang => .hang
+  | .panic => .panic
+  | .ok m =>
+    match m.1 with
+    | Option.none => .ok (.someErr, m.2.2)
+    | Option.some u => if u == 0 then .ok (.none, m.2.2) else .ok (.someOk m.2.1, m.2.2)
+
+/-- `while let Some(line) = read_line_with_eol(stdin, &mut line_buf, opt.eol)` (l.22-87): the text
+    of `WholeLit.readWhileSeg` -/
+def readWhileSeg2 (align : Bytes → Nat) (opt : Opt) : Nat → List Bytes → LinesLoop.Vars → Run × LinesLoop.Vars
+  | 0, _, v => (Run.hang, v)
+  | fuel + 1, stdin, v =>
+    match readLineWithEolSeg2 align stdin opt.eol with                  -- 22
+    | .hang => (Run.hang, v)                                            -- inside read_until
+    | .panic => (Run.panic, v)                                          -- inside read_until
+    | .ok (.none, _) => (Run.empty, v)                                  -- the loop ends
+    | .ok (line, stdin) =>
+      let v := LinesLoop.nextLine v                                     -- 23-26
+      match line with                                                   -- 28 let line = line?;
+      | .none => (Run.empty, v)                                         -- (not reached: matched above)
+      | .someErr => (Run.fail, v)                                       -- 28 `?`
+      | .someOk line =>
+        let line := stripEol opt.eol.byte line                          -- 30 strip_suffix(eol).unwrap_or(line)
+        let w := innerWhile2 opt line (opt.bounds.list.length + 1) v    -- 35-81
+        let v := w.2
+        if v.boundsIdx == opt.bounds.list.length then                   -- 83
+          (w.1, v)                                                      -- 85 break
+        else
+          let l := readWhileSeg2 align opt fuel stdin v
+          (w.1.seq l.1, l.2)
+
+/-- `cut_lines_forward_only(stdin, stdout, opt)`: the text of `WholeLit.cutLinesForwardOnlyWhole` -/
+def cutLinesForwardOnlyWhole2 (align : Bytes → Nat) (opt : Opt) (stdin : List Bytes) : Run :=
+  let v : LinesLoop.Vars :=
+    { lineIdx := 0, pastLastIndex := false, boundsIdx := 0, addNewlineNext := false }   -- 18-21
+  let w := readWhileSeg2 align opt (totalBytes stdin + 1) stdin v       -- 22-87
+  let e := LinesLoop.epilogueWhile opt (opt.bounds.list.length + 1) w.2 -- 90-122
+  (w.1.seq e.1).seq (Run.ok [opt.eol.byte])                             -- 124 stdout.write_all(&[opt.eol as u8])?
+
 /-- `opt.bounds.is_forward_only()` (userboundslist.rs:142-144) with the Rust integer types: the list
     of the model stored in `i32`s, then `UserBoundsListL.isForwardOnly` of `Tuc.Model.BoundsListLit`
     (`is_sortable`, `is_sorted` over the two `PartialOrd` impls, `has_negative_indices`) -/
@@ -353,7 +481,7 @@ def readAndCutLinesWhole2 (align : Bytes → Nat) (opt : Opt) (stdin : List Byte
             isForwardOnlyLit opt.bounds                                 -- 160 opt.bounds.is_forward_only()
           else .ok false) fun canBeStreamed =>
   if canBeStreamed then                                                 -- 162
-    (WholeLit.cutLinesForwardOnlyWhole opt stdin).seq Run.empty         -- 163 …?; 168 Ok(())
+    (cutLinesForwardOnlyWhole2 align opt stdin).seq Run.empty           -- 163 …?; 168 Ok(())
   else
     (cutLinesWhole2 align opt stdin).seq Run.empty                      -- 165 …?; 168 Ok(())
 
@@ -510,6 +638,130 @@ def readAndCutTextAsBytesWhole2 (opt : FastOpt) (stdin : List Bytes) : Run :=
       (fastLaneClosure2 opt lastInterestingField) stdin fields).1.seq   -- 194 `?`
       Run.empty                                                         -- 197 Ok(())
 
+/-! ## 4d. `cut_bytes_stream` (stream.rs:278-421) calling the statement-level `print_bof`
+
+The text of `Tuc.Model.StreamLoop`, with the Rust signature `(opt: &StreamOpt, last_interesting_field:
+Side)` (`opt = s`, a `StreamOptLit`; `StreamLoop` bundles the two in the model's `StreamOpt`):
+`print_bof` is `OptLit.printBofLit` (l.185-233 statement by statement, `print_field` included),
+`print_filler_or_fallbacks` is `OptLit.printFillerOrFallbacksOf` (= the transcription
+`StreamLoop.printFillerOrFallbacksLit`). -/
+
+open StreamLoop (Vars newLineVars memchr2Iter WhileStep) in
+/-- the body of the `for` loop for one `chunk_idx` (l.312-365): the text of `StreamLoop.forBody` -/
+def forBody2 (s : StreamOptLit) (lif : Side) (chunk : Bytes) (chunkIdx : Nat) (v : Vars) : Run × Vars × Bool :=
+  match chunk[chunkIdx]? with
+  | none => (Run.panic, v, true)                                    -- l.312 `chunk[chunk_idx]`
+  | Option.some c =>
+    let v := { v with eolReached := c == s.eol.byte }               -- l.312
+    let v := { v with bytesToConsume := chunkIdx + 1 }              -- l.313
+    if v.eolReached && v.currField == 1 && !v.prevChunkMayBeTruncated
+        && v.chunkPartStartIdx == chunkIdx then                     -- l.315-318
+      (Run.ok [s.eol.byte], v, true)                                -- l.321 write_all, l.322 break
+    else
+      let p := printBofLit s v.bofIdx v.currField chunk v.chunkPartStartIdx chunkIdx   -- l.326-336 print_bof(..)?
+                 v.prevChunkMayBeTruncated true
+      let v := { v with bofIdx := p.2 }
+      let v := { v with prevChunkMayBeTruncated := false }          -- l.338
+      let v := { v with chunkPartStartIdx := chunkIdx + 1 }         -- l.340
+      if v.eolReached then                                          -- l.343 EOL handling
+        let f := printFillerOrFallbacksOf s v.bofIdx v.currField    -- l.344
+        let v := { v with bofIdx := f.2 }
+        (p.1.seq (f.1.seq (Run.ok [s.eol.byte])), v, true)          -- l.345 write_all, l.346 break
+      else if Side.some v.currField = lif then                      -- l.350
+        let f := printFillerOrFallbacksOf s v.bofIdx v.currField    -- l.352
+        let v := { v with bofIdx := f.2 }
+        match StreamLoop.memchr s.eol.byte (chunk.drop v.bytesToConsume) with   -- l.355
+        | Option.some eolIdx =>
+          let v := { v with bytesToConsume := v.bytesToConsume + eolIdx + 1 }   -- l.356
+          let v := { v with eolReached := true }                    -- l.357
+          (p.1.seq (f.1.seq (Run.ok [s.eol.byte])), v, true)        -- l.358 write_all, l.361 break
+        | none => (p.1.seq f.1, v, true)                            -- l.361 break
+      else
+        let v := { v with currField := v.currField + 1 }            -- l.364
+        (p.1, v, false)
+
+/-- the `for` loop over the positions the iterator still has to yield -/
+def forLoop2 (s : StreamOptLit) (lif : Side) (chunk : Bytes) : List Nat → StreamLoop.Vars → Run × StreamLoop.Vars
+  | [], v => (Run.empty, v)
+  | chunkIdx :: iter, v =>
+    let b := forBody2 s lif chunk chunkIdx v
+    if b.2.2 then (b.1, b.2.1)
+    else
+      let l := forLoop2 s lif chunk iter b.2.1
+      (b.1.seq l.1, l.2)
+
+/-- "Handle remaining data in chunk" (l.367-388) -/
+def remainingData2 (s : StreamOptLit) (chunk : Bytes) (v : StreamLoop.Vars) : Run × StreamLoop.Vars :=
+  if !v.eolReached then                                             -- l.368
+    let chunkHasUnusedContent := decide (chunk.length > v.bytesToConsume)   -- l.369
+    if chunkHasUnusedContent then                                   -- l.371
+      let p := printBofLit s v.bofIdx v.currField chunk v.chunkPartStartIdx chunk.length   -- l.373-383 print_bof(..)?
+                 v.prevChunkMayBeTruncated false
+      let v := { v with bofIdx := p.2 }
+      let v := { v with prevChunkMayBeTruncated := true }           -- l.384
+      let v := { v with bytesToConsume := chunk.length }            -- l.387
+      (p.1, v)
+    else
+      let v := { v with bytesToConsume := chunk.length }            -- l.387
+      (Run.empty, v)
+  else (Run.empty, v)
+
+/-- the body of `'new_chunk` for a non-empty chunk (l.305-388) -/
+def chunkBody2 (s : StreamOptLit) (lif : Side) (chunk : Bytes) (v : StreamLoop.Vars) : Run × StreamLoop.Vars :=
+  let v := { v with emptyLine := false }                            -- l.305
+  let v := { v with chunkPartStartIdx := 0 }                        -- l.307
+  let v := { v with bytesToConsume := 0 }                           -- l.308
+  let l := forLoop2 s lif chunk (StreamLoop.memchr2Iter s.delimiter s.eol.byte chunk) v   -- l.311
+  let m := remainingData2 s chunk l.2                               -- l.367
+  (l.1.seq m.1, m.2)
+
+/-- one turn of `'new_chunk: while !eol_reached && !eof` (l.294-393) -/
+def whileStep2 (s : StreamOptLit) (lif : Side) (stdin : List Bytes) (v : StreamLoop.Vars) : StreamLoop.WhileStep :=
+  if !v.eolReached && !v.eof then                                   -- l.294
+    let chunk := fillBuf stdin                                      -- l.295
+    if chunk.isEmpty then                                           -- l.297
+      let v := { v with eof := true }                               -- l.298
+      let v := if v.emptyLine then { v with eolReached := true } else v   -- l.299-301
+      .leave v                                                      -- l.302 break 'new_chunk
+    else
+      let b := chunkBody2 s lif chunk v                             -- l.305-388
+      .again b.1 (consume b.2.bytesToConsume stdin) b.2             -- l.390 stdin.consume(bytes_to_consume)
+  else .leave v
+
+/-- after `'new_chunk` (l.395-417) -/
+def afterNewChunk2 (s : StreamOptLit) (v : StreamLoop.Vars) : Run × Bool :=
+  if v.eof && !v.eolReached then                                    -- l.396 Handle EOF at end of line
+    let p := printBofLit s v.bofIdx v.currField [] 0 0 v.prevChunkMayBeTruncated true   -- l.398-408
+    let f := printFillerOrFallbacksOf s p.2 v.currField             -- l.409
+    (p.1.seq (f.1.seq (Run.ok [s.eol.byte])), true)                 -- l.410 write_all, l.411 break 'new_line
+  else if v.eof then (Run.empty, true)                              -- l.415-416 break 'new_line
+  else (Run.empty, false)                                           -- l.418 next iteration of 'new_line
+
+/-- the two loops (l.287-418) -/
+def newChunk2 (s : StreamOptLit) (lif : Side) : Nat → List Bytes → StreamLoop.Vars → Run
+  | 0, _, _ => Run.hang
+  | fuel + 1, stdin, v =>
+    match whileStep2 s lif stdin v with
+    | .again r stdin' v' => r.seq (newChunk2 s lif fuel stdin' v')  -- l.393 → l.294
+    | .leave v' =>
+      let a := afterNewChunk2 s v'                                  -- l.395-417
+      if a.2 then a.1                                               -- l.420 `Ok(())`
+      else a.1.seq (newChunk2 s lif fuel stdin (StreamLoop.newLineVars v'.eof))   -- l.287-292 → l.294
+
+/-- `cut_bytes_stream(stdin, stdout, opt, last_interesting_field)` (stream.rs:278-421) -/
+def cutBytesStreamLoop2 (s : StreamOptLit) (lastInterestingField : Side) (segs : List Bytes) : Run :=
+  newChunk2 s lastInterestingField (fuelFor segs) segs (StreamLoop.newLineVars false)   -- l.284-287
+
+/-- `read_and_cut_bytes_stream(stdin, stdout, opt)` (stream.rs:161-169): the text of
+    `WholeLit.readAndCutBytesStreamWhole` -/
+def readAndCutBytesStreamWhole2 (opt : StreamOptLit) (stdin : List Bytes) : Run :=
+  match opt.bounds.getLastBound with                                    -- 166 opt.bounds.get_last_bound()
+  | Option.none => Run.panic                                            -- l.95 panic!
+  | Option.some b =>
+    let lastInterestingField := b.r                                     -- 166 .r
+    (cutBytesStreamLoop2 opt lastInterestingField stdin).seq            -- 167 cut_bytes_stream(..)?
+      Run.empty                                                         -- 168 Ok(())
+
 /-! ## 5. `parse_args` (bin/tuc.rs:48-256) with `UserBoundsList::from_str` at statement level -/
 
 /-- `<UserBoundsList as FromStr>::from_str` (userboundslist.rs:58-70): `BoundsListLit.fromStrLit`
@@ -615,7 +867,7 @@ def dispatchWhole2 (align : Bytes → Nat) (opt : Opt) (segs : List Bytes) : Opt
     | .fail => Option.none                                              -- 266-267 eprintln!(..); exit(1)
     | .panic => Option.some Run.panic
     | .ok streamOpt =>
-      Option.some (WholeLit.readAndCutBytesStreamWhole streamOpt segs)  -- 270 read_and_cut_bytes_stream(..)?; 272; 274
+      Option.some (readAndCutBytesStreamWhole2 streamOpt segs)           -- 270 read_and_cut_bytes_stream(..)?; 272; 274
   else if opt.boundsType = .bytes then                                  -- 277
     Option.some (readAndCutBytesLoop2 opt segs)                          -- 278 read_and_cut_bytes(..)?
   else if opt.boundsType = .lines then                                  -- 279
